@@ -81,6 +81,9 @@ type Frame struct {
 	callOrd  map[string]int
 	atIdx    int
 	seenCalls map[string]bool
+	callLog  map[string]*callRec
+	callSeq  int
+	callOrdOf map[*ssa.CallCommon]int
 }
 
 type deferred struct {
